@@ -5,19 +5,22 @@ From V Require Import Base.Sched Proto.AtomicQueueDefs Proto.AtomicQueueProofs.
 Import ListNotations.
 Import AtomicQueue.
 
-(* dequeue_all / try_mark_inactive_or_dequeue_all lose nothing, duplicate nothing and restore FIFO:
-   the batches handed to the consumer, concatenated, followed by what still hangs off head_
-   (oldest first), are the items in the order of their successful enqueue CAS. *)
+(* dequeue_all / dequeue_all_reversed / try_mark_inactive_or_dequeue_all lose nothing, duplicate
+   nothing and restore FIFO: the batches handed to the consumer (a stack from dequeue_all_reversed
+   read backwards; an item handed back by enqueue_or_mark_active as a batch of one), concatenated,
+   followed by what still hangs off head_ (oldest first), are the items in the order of their
+   successful enqueue / enqueue_or_mark_active CAS.  [kinds] says which producers call
+   enqueue_or_mark_active instead of enqueue. *)
 Theorem C06_queue_fifo_no_loss_no_dup :
-  forall (a0 : bool) (counts : list nat) (ops : list cop) (sched : list nat),
-  let c := run step sched (init a0 counts ops, []) in
+  forall (a0 : bool) (counts : list nat) (kinds : list bool) (ops : list cop) (sched : list nat),
+  let c := run step sched (init a0 counts kinds ops, []) in
   enqs (snd c) = batches (snd c) ++ rev (stack (fst c)) /\ NoDup (enqs (snd c)).
 Proof. exact fifo_no_loss. Qed.
 Print Assumptions C06_queue_fifo_no_loss_no_dup.
 
 Theorem C06_queue_batches_nodup :
-  forall (a0 : bool) (counts : list nat) (ops : list cop) (sched : list nat),
-  NoDup (batches (snd (run step sched (init a0 counts ops, [])))).
+  forall (a0 : bool) (counts : list nat) (kinds : list bool) (ops : list cop) (sched : list nat),
+  NoDup (batches (snd (run step sched (init a0 counts kinds ops, [])))).
 Proof. exact batches_nodup. Qed.
 Print Assumptions C06_queue_batches_nodup.
 
@@ -29,8 +32,8 @@ Print Assumptions C06_queue_batches_nodup.
    As this holds after every step of every schedule, the successful marks and the wake-ups
    alternate strictly. *)
 Theorem C06_queue_enqueue_inactive_unique :
-  forall (a0 : bool) (counts : list nat) (ops : list cop) (sched : list nat),
-  let c := run step sched (init a0 counts ops, []) in
+  forall (a0 : bool) (counts : list nat) (kinds : list bool) (ops : list cop) (sched : list nat),
+  let c := run step sched (init a0 counts kinds ops, []) in
   n_marks (snd c) + b2n (negb a0) =
   n_wakes (snd c) + n_actives (snd c) + b2n (inactive (fst c)).
 Proof. exact enqueue_inactive_unique. Qed.
@@ -39,9 +42,9 @@ Print Assumptions C06_queue_enqueue_inactive_unique.
 (* enqueue() returns true exactly when its CAS replaced the inactive marker; that CAS re-activates
    the queue *)
 Theorem C06_queue_wake_iff_cas_from_inactive :
-  forall (a0 : bool) (counts : list nat) (ops : list cop) (sched1 : list nat)
+  forall (a0 : bool) (counts : list nat) (kinds : list bool) (ops : list cop) (sched1 : list nat)
          (t : nat) (s' : st) (evs : list ev) (it : item),
-  let c1 := run step sched1 (init a0 counts ops, []) in
+  let c1 := run step sched1 (init a0 counts kinds ops, []) in
   step t (fst c1) = Some (s', evs) ->
   (In (EWake it) evs <-> In (EEnqCas PInactive it true) evs) /\
   (In (EWake it) evs -> inactive (fst c1) = true /\ inactive s' = false /\ t = fst it /\
@@ -49,9 +52,24 @@ Theorem C06_queue_wake_iff_cas_from_inactive :
 Proof. exact wake_iff_cas_from_inactive. Qed.
 Print Assumptions C06_queue_wake_iff_cas_from_inactive.
 
+(* the same for enqueue_or_mark_active (what v1 async_mutex uses): it returns false -- the item is
+   handed straight back to the caller, which now owns the re-activated, empty queue -- exactly when
+   its CAS replaced the inactive marker.  In the theorems above such an item counts as a batch of
+   one (it is linearised at that CAS, where the chain is empty) and as a wake-up. *)
+Theorem C06_queue_direct_iff_cas_from_inactive :
+  forall (a0 : bool) (counts : list nat) (kinds : list bool) (ops : list cop) (sched1 : list nat)
+         (t : nat) (s' : st) (evs : list ev) (it : item),
+  let c1 := run step sched1 (init a0 counts kinds ops, []) in
+  step t (fst c1) = Some (s', evs) ->
+  (In (EDirect it) evs <-> In (EOrmCas PInactive it true true) evs) /\
+  (In (EDirect it) evs -> inactive (fst c1) = true /\ inactive s' = false /\ t = fst it /\
+                          evs = [EOrmCas PInactive it true true; EDirect it]).
+Proof. exact direct_iff_cas_from_inactive. Qed.
+Print Assumptions C06_queue_direct_iff_cas_from_inactive.
+
 Theorem C06_queue_inactive_means_empty :
-  forall (a0 : bool) (counts : list nat) (ops : list cop) (sched : list nat),
-  let s := fst (run step sched (init a0 counts ops, [])) in
+  forall (a0 : bool) (counts : list nat) (kinds : list bool) (ops : list cop) (sched : list nat),
+  let s := fst (run step sched (init a0 counts kinds ops, [])) in
   inactive s = true -> stack s = [] /\ cons s = CStart.
 Proof. exact inactive_empty. Qed.
 Print Assumptions C06_queue_inactive_means_empty.
@@ -60,8 +78,8 @@ Print Assumptions C06_queue_inactive_means_empty.
    dequeue_all): when everything has finished every item of every producer has been handed to the
    consumer exactly once, in the order of the successful CASes, and head_ is nullptr *)
 Theorem C06_queue_final_all_delivered :
-  forall (a0 : bool) (counts : list nat) (pre : list cop) (sched : list nat),
-  let c := run step sched (init a0 counts (pre ++ [OpFinal]), []) in
+  forall (a0 : bool) (counts : list nat) (kinds : list bool) (pre : list cop) (sched : list nat),
+  let c := run step sched (init a0 counts kinds (pre ++ [OpFinal]), []) in
   final (fst c) = true ->
   batches (snd c) = enqs (snd c) /\ NoDup (batches (snd c)) /\ stack (fst c) = [] /\
   forall i n j, nth_error counts i = Some n -> j < n -> In (S i, j) (batches (snd c)).
@@ -69,8 +87,8 @@ Proof. exact final_all_delivered. Qed.
 Print Assumptions C06_queue_final_all_delivered.
 
 Theorem C06_queue_inv_reachable :
-  forall (a0 : bool) (counts : list nat) (ops : list cop) (sched : list nat),
-  Inv a0 (fst (run step sched (init a0 counts ops, []))).
+  forall (a0 : bool) (counts : list nat) (kinds : list bool) (ops : list cop) (sched : list nat),
+  Inv a0 (fst (run step sched (init a0 counts kinds ops, []))).
 Proof. exact inv_reachable. Qed.
 Print Assumptions C06_queue_inv_reachable.
 
@@ -79,7 +97,7 @@ Print Assumptions C06_queue_inv_reachable.
    takes the batch [1.0; 1.1] (FIFO restored); producer 2 enqueues; the final drain finds the queue
    active (try_mark_active fails) and takes [2.0] *)
 Example C06_queue_example :
-  let c := run step [0; 0; 1; 1; 1; 1; 0; 0; 2; 2; 0; 0; 0] (init true [2; 1] [OpInactiveOrDeq; OpInactiveOrDeq; OpFinal], []) in
+  let c := run step [0; 0; 1; 1; 1; 1; 0; 0; 2; 2; 0; 0; 0] (init true [2; 1] [] [OpInactiveOrDeq; OpInactiveOrDeq; OpFinal], []) in
   final (fst c) = true /\ delivered (fst c) = [(1, 0); (1, 1); (2, 0)] /\
   marks (fst c) = 1 /\ wakes (fst c) = 1 /\ actives (fst c) = 0 /\
   snd c = [ELoad PNull; EMarkInactive PNull true; EBatch [];
@@ -93,8 +111,19 @@ Proof. vm_compute. repeat split; reflexivity. Qed.
 (* two producers race on the inactive marker: both load it, producer 2's CAS wins and is the one
    told to wake the consumer; producer 1's CAS fails, retries on top of 2.0 and is told nothing *)
 Example C06_queue_example_race_on_marker :
-  let c := run step [1; 2; 2; 1; 1] (init false [1; 1] [OpFinal], []) in
+  let c := run step [1; 2; 2; 1; 1] (init false [1; 1] [] [OpFinal], []) in
   snd c = [ELoad PInactive; ELoad PInactive; EEnqCas PInactive (2, 0) true; EWake (2, 0);
            EEnqCas (PItem (2, 0)) (1, 0) false; EEnqCas (PItem (2, 0)) (1, 0) true] /\
   wakes (fst c) = 1 /\ stack (fst c) = [(1, 0); (2, 0)] /\ inactive (fst c) = false.
+Proof. vm_compute. repeat split; reflexivity. Qed.
+
+(* producer 1 uses enqueue_or_mark_active on an inactive queue: its first item replaces the marker
+   and is handed back (EDirect), its second is linked in; the consumer takes it with
+   dequeue_all_reversed *)
+Example C06_queue_example_or_mark_active :
+  let c := run step [1; 1; 1; 1; 0; 0] (init false [2] [true] [OpDeqRev; OpFinal], []) in
+  snd c = [ELoad PInactive; EOrmCas PInactive (1, 0) true true; EDirect (1, 0);
+           ELoad PNull; EOrmCas PNull (1, 1) false true;
+           ELoad (PItem (1, 1)); EXchg (PItem (1, 1)); EBatchRev [(1, 1)]] /\
+  delivered (fst c) = [(1, 0); (1, 1)] /\ wakes (fst c) = 1 /\ inactive (fst c) = false.
 Proof. vm_compute. repeat split; reflexivity. Qed.
